@@ -22,6 +22,11 @@ type vPad struct {
 	B uint32
 }
 
+// vID, vDelta: application-defined (named) integer types; a TypeEncoder built for one must
+// hand back values of that type, not of the underlying predeclared type.
+type vID uint32
+type vDelta int16
+
 type vNest struct {
 	X [3]uint16
 	P vPad
@@ -51,6 +56,12 @@ func H_k_enc_type() {
 	case 3:
 		x := vPad{A: vU8("v"), B: vU32("v")}
 		zero, v, packed = vPad{}, x, 5
+	case 5:
+		x := vID(vU32("v"))
+		zero, v, packed = vID(0), x, 4
+	case 6:
+		x := vDelta(vI16("v"))
+		zero, v, packed = vDelta(0), x, 2
 	default:
 		x := vNest{X: [3]uint16{vU16("v"), vU16("v"), vU16("v")}, P: vPad{A: vU8("v"), B: vU32("v")}, Y: vI64("v"), Z: vU8("v")}
 		zero, v, packed = vNest{}, x, 6+5+8+1
@@ -109,6 +120,12 @@ func H_k_enc_type() {
 		same = d.([3]uint16) == v.([3]uint16)
 	case 3:
 		same = d.(vPad) == v.(vPad)
+	case 5:
+		x, ok := d.(vID)
+		same = ok && x == v.(vID)
+	case 6:
+		x, ok := d.(vDelta)
+		same = ok && x == v.(vDelta)
 	default:
 		same = d.(vNest) == v.(vNest)
 	}
